@@ -541,6 +541,20 @@ def isProgClause (ty : Expr) : Bool :=
     (let concl := ty.bindingBody!
      concl.isAppOfArity ``LT.lt 4 || concl.isAppOfArity ``Eq 3 || concl.isAppOfArity ``And 2)
 
+open Lean in
+/-- a linear-arithmetic atom: `<`, `≤` -/
+def isArith (e : Expr) : Bool := e.isAppOfArity ``LT.lt 4 || e.isAppOfArity ``LE.le 4
+
+open Lean Elab Tactic Meta in
+/-- succeeds iff the goal is a statement for `omega` -/
+elab "arith_goal" : tactic => withMainContext do
+  let t ← instantiateMVars (← (← getMainGoal).getType)
+  let t := t.headBeta
+  let ok := isArith t || t.isConstOf ``False ||
+    (t.isAppOfArity ``Eq 3 && t.getAppArgs[0]!.isConstOf ``Nat) ||
+    (t.isAppOfArity ``Not 1 && (isArith t.appArg! || (t.appArg!.isAppOfArity ``Eq 3 && t.appArg!.getAppArgs[0]!.isConstOf ``Nat)))
+  unless ok do throwError "not arithmetic"
+
 open Lean Elab Tactic Meta in
 /-- normalise the hypothesis with the (accessible) name `nm` with the hypotheses already present,
 split it, and make the name inaccessible again -/
@@ -552,12 +566,57 @@ def absorbName (nm : Name) : TacticM Unit := do
     let ty' := ty.headBeta
     let g ← if ty' != ty then g.replaceLocalDeclDefEq d.fvarId ty' else pure g
     replaceMainGoal [g]
-    let hn := mkIdent nm
-    evalTactic (← `(tactic| try pg_nf at $hn:ident))
+    -- nothing to normalise in an opaque fact or in arithmetic over positions and counters
+    let plain := ty'.getAppFn.isConstOf `Oq3.Parser.Lim ||
+      (isArith ty' && (ty'.find? (fun e => e.isConstOf ``Array.size || e.isConstOf ``Oq3.Parser.P.kindAt)).isNone)
+    unless plain do
+      let hn := mkIdent nm
+      evalTactic (← `(tactic| try pg_nf at $hn:ident))
     if (← getGoals).isEmpty then return
     let g ← getMainGoal
+    let before := (← g.getDecl).lctx.getFVarIds
     let g ← g.casesAnd
     replaceMainGoal [g]
+    -- implications between arithmetic facts (`Adv.inb`, discount clauses): decide them now if the
+    -- context already knows, so that `omega` does not have to split on them in every side goal
+    let fresh := (← g.getDecl).lctx.getFVarIds.filter fun f => !before.contains f || f == d.fvarId
+    for f in fresh do
+      let gs ← getGoals
+      let some gcur := gs.head? | return
+      let go ← gcur.withContext do
+        let some dd := (← getLCtx).find? f | return false
+        let ty ← instantiateMVars dd.type
+        return ty.isArrow && isArith ty.bindingDomain! && isArith ty.bindingBody!
+      if go then
+        let saved ← saveState
+        let ok ← try
+          gcur.withContext do
+            let ty ← instantiateMVars (← f.getType)
+            let concl ← mkFreshExprSyntheticOpaqueMVar ty.bindingBody!
+            let rest ← Lean.Elab.Tactic.run concl.mvarId! (do evalTactic (← `(tactic| omega)))
+            if rest.isEmpty then
+              let g1 ← gcur.assert `harith ty.bindingBody! (← instantiateMVars concl)
+              let (_, g2) ← g1.intro1P
+              let g3 ← g2.tryClear f
+              replaceMainGoal [g3]
+              pure true
+            else pure false
+          catch _ => pure false
+        unless ok do
+          saved.restore
+          let saved2 ← saveState
+          let ok2 ← try
+            gcur.withContext do
+              let ty ← instantiateMVars (← f.getType)
+              let neg ← mkFreshExprSyntheticOpaqueMVar (mkNot ty.bindingDomain!)
+              let rest ← Lean.Elab.Tactic.run neg.mvarId! (do evalTactic (← `(tactic| omega)))
+              if rest.isEmpty then
+                let g3 ← gcur.tryClear f
+                replaceMainGoal [g3]
+                pure true
+              else pure false
+            catch _ => pure false
+          unless ok2 do saved2.restore
   let g ← getMainGoal
   if let some d := (← g.getDecl).lctx.findFromUserName? nm then
     let g ← g.rename d.fvarId (← Lean.Core.mkFreshUserName nm)
@@ -639,6 +698,22 @@ theorem atF_kind {k : SyntaxKind} (hc : compositePieces k = none) {K : Array Syn
     {J : Array Bool} {p : Nat} (h : atF k K J p = true) : K.getD p .EOF = k := by
   rw [atF_simple hc] at h; simpa using h
 
+open Lean Elab Tactic Meta in
+/-- `goal_kind wp` / `pi` / `and`: succeeds iff the goal (after beta) is a `wp` statement / a `∀`,`→` /
+a conjunction; a beta-redex is reduced on the way -/
+elab "goal_kind " k:ident : tactic => withMainContext do
+  let g ← getMainGoal
+  let t ← instantiateMVars (← g.getType)
+  let t' := t.cleanupAnnotations.headBeta
+  let kind :=
+    if t'.isAppOfArity ``Oq3.Parser.wp 5 || (← whnfR t').isAppOfArity ``Oq3.Parser.wp 5 then `wp
+    else if t'.isForall then `pi
+    else if t'.isAppOfArity ``And 2 then `and
+    else `other
+  unless kind == k.getId.eraseMacroScopes do throwError "goal_kind: {kind}"
+  if t' != t then
+    replaceMainGoal [← g.replaceTargetDefEq t']
+
 /-- extensible: normalisation of rank tables before `omega` -/
 syntax "pg_norm" : tactic
 macro_rules | `(tactic| pg_norm) => `(tactic| skip)
@@ -646,10 +721,9 @@ macro_rules | `(tactic| pg_norm) => `(tactic| skip)
 /-- close a side goal from the (normalised) facts collected on the way -/
 macro "pg_fin" : tactic => `(tactic| first
   | assumption
-  | omega
-  | (pg_norm; omega)
+  | (arith_goal; first | omega | (pg_norm; omega) | ((try pg_nf); pg_norm; omega))
   | (pg_nf; done)
-  | ((try pg_nf); (repeat' apply And.intro) <;> first | assumption | omega | (pg_norm; omega)))
+  | ((try pg_nf); (repeat' apply And.intro) <;> first | assumption | (arith_goal; pg_norm; omega)))
 
 macro "pg_fin2" : tactic => `(tactic| first
   | pg_fin
@@ -667,20 +741,23 @@ macro "pg_close" : tactic => `(tactic| first
   | (clause_cases <;> first | pg_fin2 | (clause_cases <;> pg_fin2)))
 
 macro "pg_step" : tactic => `(tactic| first
-  | pg_intro
-  | wp_rule [Pure.pure wp_pure, Bind.bind wp_bind, ite wp_ite, andM wp_andM, orM wp_orM, notM wp_notM,
-      Functor.map wp_map, at' wp_at, current wp_current, atTs wp3_atTs, nth wp3_nth, start wp3_start,
-      error wp3_error, Marker.complete wp3_complete, Marker.abandon wp3_abandon,
-      CompletedMarker.precede wp3_precede, CompletedMarker.extendTo wp3_extendTo, eat wp3_eat,
-      bump wp3_bump, bumpAny wp3_bumpAny, expect wp3m_expect, errRecover wp3m_errRecover,
-      errAndBump wp3m_errAndBump, typeName wp3m_typeName, currentOp wp_currentOp]
-  | (with_reducible apply wp_fail; decide)
-  | (with_reducible apply wp_panic; decide)
-  | wp_call prog
+  | (goal_kind wp; first
+      | wp_rule [Pure.pure wp_pure, Bind.bind wp_bind, ite wp_ite, andM wp_andM, orM wp_orM, notM wp_notM,
+          Functor.map wp_map, at' wp_at, current wp_current, atTs wp3_atTs, nth wp3_nth, start wp3_start,
+          error wp3_error, Marker.complete wp3_complete, Marker.abandon wp3_abandon,
+          CompletedMarker.precede wp3_precede, CompletedMarker.extendTo wp3_extendTo, eat wp3_eat,
+          bump wp3_bump, bumpAny wp3_bumpAny, expect wp3m_expect, errRecover wp3m_errRecover,
+          errAndBump wp3m_errAndBump, typeName wp3m_typeName, currentOp wp_currentOp]
+      | (with_reducible apply wp_fail; decide)
+      | (with_reducible apply wp_panic; decide)
+      | wp_call prog
+      | pg_split
+      | dsimp only)
+  | (goal_kind pi; pg_intro)
+  | (goal_kind and; with_reducible apply And.intro)
+  | pg_close
   | pg_split
-  | with_reducible apply And.intro
-  | dsimp only
-  | pg_close)
+  | dsimp only)
 
 set_option hygiene false in
 /-- absorb the hypothesis `hpre` of the statement, then run -/
